@@ -16,11 +16,13 @@ Section Tot.
   Variable il id : Z -> bool.
   Variable F : nat.
   Variable N : Z.
+  Variable L : Z.     (* lower bound of the offsets: 0 for totality, the start of a definition for locality *)
+  Hypothesis HL : 0 <= L.
   Hypothesis HF : N + 1 < Z.of_nat F.
 
-  Notation okpos := (okpos N).
-  Notation sinv := (sinv N).
-  Notation tok_ok := (tok_ok N).
+  Notation okpos := (okpos N L).
+  Notation sinv := (sinv N L).
+  Notation tok_ok := (tok_ok N L).
 
   Definition nu (st : pstate) : Z :=
     match p_look st with
@@ -36,11 +38,11 @@ Section Tot.
     | None => True
     end.
 
-  Lemma pinv_bounds : forall st, pinv st -> 0 <= nu st <= N.
+  Lemma pinv_bounds : forall st, pinv st -> L <= nu st <= N.
   Proof.
     intros st (Hs & Hl). unfold nu. destruct (p_look st) as [t|].
     - destruct Hl as ((Hp & _) & _). exact Hp.
-    - apply (core_bounds N). apply Hs.
+    - apply (core_bounds N L). apply Hs.
   Qed.
 
   Lemma sinv_fuel : forall s, sinv s -> (length (s_rest s) < F)%nat.
@@ -94,7 +96,7 @@ Section Tot.
     intros st (Hs & Hl). unfold wp, next_token, post, pinv, nu. destruct (p_look st) as [t|] eqn:El.
     - cbn [p_sc p_look]. destruct Hl as (Hok & Hle & Hlt).
       split; [split; [exact Hs|exact I]|]. split; [exact Hle|]. split; [exact Hlt|exact Hok].
-    - unfold lift_s, scan. pose proof (sc_scan_spec N il id F (p_sc st) Hs (sinv_fuel _ Hs)) as H.
+    - unfold lift_s, scan. pose proof (sc_scan_spec N L il id F (p_sc st) Hs (sinv_fuel _ Hs)) as H.
       destruct (sc_scan il id F (p_sc st)) as [[t s']|p k|]; cbn [sres_ok] in H; [|exact H|exact H].
       destruct H as (Hs' & _ & Hok & Hrange & Hlt & _). cbn [p_sc p_look]. rewrite El.
       split; [split; [exact Hs'|exact I]|]. split; [lia|]. split; [|exact Hok]. intros Hne. specialize (Hlt Hne). lia.
@@ -107,7 +109,7 @@ Section Tot.
     - rewrite El. destruct Hl as (Hok & Hle & Hlt). split; [|reflexivity].
       split; [split; [exact Hs|]|]. { split; [exact Hok|]. split; [exact Hle|exact Hlt]. }
       split; [lia|]. split; [tauto|exact Hok].
-    - unfold scan. pose proof (sc_scan_spec N il id F (p_sc st) Hs (sinv_fuel _ Hs)) as H.
+    - unfold scan. pose proof (sc_scan_spec N L il id F (p_sc st) Hs (sinv_fuel _ Hs)) as H.
       destruct (sc_scan il id F (p_sc st)) as [[t s']|p k|]; cbn [sres_ok] in H; [|exact H|exact H].
       destruct H as (Hs' & _ & Hok & Hrange & Hlt & _). cbn [p_sc p_look].
       split; [|reflexivity]. split; [split; [exact Hs'|]|].
@@ -294,7 +296,7 @@ Section Tot.
     intros st (Hs & Hl). unfold wp, next_rune, rune_post, pmeasure, pinv, nu. destruct (p_look st) as [t|] eqn:El.
     - destruct Hl as ((Hp & _) & Hle & _). destruct (1 <? rune_count (t_txt t)); [exact Hp|].
       cbn [p_sc p_look]. split; [split; [split; [exact Hs|exact I]|split; [exact Hle|lia]]|]. intros _. lia.
-    - unfold lift_s. pose proof (sc_Next_spec N (p_sc st) Hs) as H.
+    - unfold lift_s. pose proof (sc_Next_spec N L (p_sc st) Hs) as H.
       destruct (sc_Next (p_sc st)) as [[c s']|p k|]; cbn [sres_ok] in H; [|exact H|exact H].
       destruct H as (He & Hk & Hm & Hst). cbn [p_sc p_look]. rewrite El.
       split; [split; [split; [split; [apply He|right; exact Hk]|exact I]|split; [apply He|lia]]|].
@@ -306,7 +308,7 @@ Section Tot.
     intros st (Hs & Hl). unfold wp, peek_rune, rune_post, pmeasure, pinv, nu. destruct (p_look st) as [t|] eqn:El.
     - pose proof Hl as ((Hp & _) & Hle & _). destruct (1 <? rune_count (t_txt t)); [exact Hp|].
       rewrite El. split; [split; [exact Hs|exact Hl]|split; lia].
-    - unfold lift_s. pose proof (sc_peek_spec N (p_sc st) Hs) as H.
+    - unfold lift_s. pose proof (sc_peek_spec N L (p_sc st) Hs) as H.
       destruct (sc_peek (p_sc st)) as [[c s']|p k|]; cbn [sres_ok] in H; [|exact H|exact H].
       destruct H as (He & Hk & Hch & _ & Hm). cbn [p_sc p_look]. rewrite El.
       split; [split; [split; [apply He|right; rewrite Hch; exact Hk]|exact I]|split; [apply He|lia]].
@@ -768,7 +770,7 @@ End Tot.
 
 (** ------------------------------------------------------------------ the theorem *)
 
-Lemma pinv_init : forall src, Forall byte src -> pinv (blen src) (p_init src).
+Lemma pinv_init : forall src, Forall byte src -> pinv (blen src) 0 (p_init src).
 Proof.
   intros src Hb. unfold pinv, p_init. cbn [p_sc p_look]. split; [|exact I].
   unfold sinv, core, sc_init, tokoff. cbn. split; [|left; reflexivity]. split; [lia|]. split; [exact Hb|lia].
@@ -785,10 +787,23 @@ Proof.
   intros il id src Hb. unfold parse_bytes, parse.
   assert (HF : blen src + 1 < Z.of_nat (fuel_for src)) by (unfold fuel_for, blen; lia).
   pose proof (pinv_init src Hb) as Hi.
-  assert (H : outcome_ok (blen src)
+  assert (H : outcome_ok (blen src) 0
                 (parse_loop_with il id (fuel_for src) (parse_bit_timing il id (fuel_for src))
                    (parse_unknown il id (fuel_for src)) (parse_message il id (fuel_for src)) (fuel_for src) [] (p_init src))).
-  { eapply parse_loop_spec; [exact HF | exact Hi | eapply fuel_ok_F; eassumption]. }
+  { eapply parse_loop_spec; [lia | exact HF | exact Hi | eapply fuel_ok_F; try eassumption; lia]. }
   unfold outcome_ok, okpos in H.
   destruct (parse_loop_with _ _ _ _ _ _ _ _ _); exact H.
+Qed.
+
+(** the definitions reported with an error extend the ones accumulated so far *)
+Lemma parse_loop_defs_prefix : forall il id F bt unk msg f defs st p k d,
+  parse_loop_with il id F bt unk msg f defs st = Err p k d -> exists more, d = defs ++ more.
+Proof.
+  induction f; intros defs st p k d H; cbn [parse_loop_with] in H; [discriminate|].
+  destruct (peek_token il id F st) as [t st1|pp kk| |]; try discriminate.
+  2: { injection H as _ _ <-. exists []. rewrite app_nil_r. reflexivity. }
+  destruct (t_typ t =? EOF); [discriminate|].
+  match type of H with match ?m with _ => _ end = _ => destruct m as [dd st2|pp kk| |] end; try discriminate.
+  - apply IHf in H. destruct H as (more & ->). exists (dd :: more). rewrite <- app_assoc. reflexivity.
+  - injection H as _ _ <-. exists []. rewrite app_nil_r. reflexivity.
 Qed.
